@@ -945,6 +945,216 @@ def check_history(item, seed=0):
     return t
 
 
+# ============================================================================= ordered configuration
+# "Whatever is an ordered list in the configuration is used in that order."  (a) slice thicknesses: every order pattern of
+# distinct values and repeats in every position, for 3, 4 and 5 slices, handed over as list / tuple / ndarray / tensor /
+# scalar, at construction, by an object-model swap, and through the two slice_thicknesses setters followed by the
+# recomputation calls; the simulator uses the sequence in slice order.  (b) pattern order: data and scan positions permuted
+# consistently (positions through the public `dset.scan_positions_px` setter): the prediction must follow; probe_params dict
+# key order.  (Probe mode order is the `mode_orders` lattice family.)  Tilted propagation is not modelled by the simulator, so
+# the (row, column) order of a probe tilt is outside this check.
+_a, _b, _c, _d = 40.0, 75.0, 115.0, 160.0
+THICKNESS_SEQUENCES = {
+    3: {"ab": (_a, _c), "ba": (_c, _a), "aa": (_b, _b), "scalar": (_b, _b)},
+    4: dict([("".join("abc"[i] for i in p), tuple((_a, _b, _c)[i] for i in p)) for p in itertools.permutations(range(3))]
+            + [("aab", (_a, _a, _c)), ("aba", (_a, _c, _a)), ("baa", (_c, _a, _a)), ("bba", (_c, _c, _a)), ("bab", (_c, _a, _c)), ("abb", (_a, _c, _c)),
+               ("scalar", (_b, _b, _b))]),
+    5: {"ascending": (_a, _b, _c, _d), "descending": (_d, _c, _b, _a), "peak": (_a, _c, _d, _b), "valley": (_c, _a, _b, _d), "zigzag": (_b, _d, _a, _c),
+        "zagzig": (_c, _a, _d, _b), "abab": (_a, _c, _a, _c), "baba": (_c, _a, _c, _a), "aabb": (_a, _a, _c, _c), "scalar": (_b, _b, _b, _b)},
+}
+THICKNESS_ROUTES = ("construction", "object_model_swap", "ptychography_setter", "object_model_setter")
+ORDER_BASES = [
+    dict(obj_type="complex", modes=1, roi=[8, 10], scan=[2, 2], step="fractional", pad=[3, 5]),
+    dict(obj_type="potential", modes=2, roi=[8, 8], scan=[2, 3], step="fractional", pad=[3, 5]),
+]
+PATTERN_ORDERS = ("identity", "reversed", "column_major", "swap_first_two", "rotated_by_one", "interleaved")
+PROBE_PARAM_KEYS = ("energy", "defocus", "semiangle_cutoff")
+
+
+def pattern_permutation(name, scan):
+    nr, nc = scan
+    J = nr * nc
+    idx = np.arange(J)
+    if name == "identity":
+        return idx
+    if name == "reversed":
+        return idx[::-1].copy()
+    if name == "column_major":
+        return idx.reshape(nr, nc).T.ravel().copy()
+    if name == "swap_first_two":
+        p = idx.copy()
+        p[[0, 1]] = p[[1, 0]]
+        return p
+    if name == "rotated_by_one":
+        return np.roll(idx, 1)
+    if name == "interleaved":
+        return np.concatenate([idx[::2], idx[1::2]])
+    raise ValueError(name)
+
+
+def order_items(tier, start):
+    items = []
+
+    def add(**kw):
+        items.append(dict(index=start + len(items), **kw))
+
+    for b in range(len(ORDER_BASES)):
+        for S, seqs in THICKNESS_SEQUENCES.items():
+            for name in seqs:
+                for route in THICKNESS_ROUTES:
+                    if name == "scalar":
+                        conts = ("scalar", "list")
+                    elif tier != "quick" or (S, name) in ((4, "cab"), (4, "aba")):
+                        conts = ("list", "tuple", "ndarray", "tensor")
+                    else:
+                        conts = ("list",)
+                    for cont in conts:
+                        add(kind="slice_thicknesses", base=b, slices=S, sequence=name, route=route, container=cont)
+        for name in PATTERN_ORDERS:
+            for S in (1, 3):
+                add(kind="pattern_order", base=b, slices=S, order=name)
+        for order in itertools.permutations(PROBE_PARAM_KEYS):
+            add(kind="probe_params_key_order", base=b, slices=3, order=list(order))
+    return items
+
+
+def run_order_case(item, seed=0):
+    import torch
+
+    base = dict(ORDER_BASES[item["base"]], slices=item["slices"])
+    kind = item["kind"]
+    fails, seen = [], set()
+
+    def fail(what, msg):
+        cls = {"relation": "ordered_configuration_is_used_in_order", "sequence": kind, "what": what}
+        k = json.dumps(cls, sort_keys=True)
+        if k not in seen:
+            seen.add(k)
+            fails.append((cls, msg))
+
+    rec = {"index": item["index"], "item": {k: v for k, v in item.items() if k != "index"}}
+    S = item["slices"]
+    default_T = [60.0 + 30.0 * s for s in range(S - 1)]
+    T = list(THICKNESS_SEQUENCES[S][item["sequence"]]) if kind == "slice_thicknesses" else default_T
+    cfgT = dict(base, thicknesses=T)
+    if kind == "probe_params_key_order":
+        cfgT["probe_params_order"] = item["order"]
+    c = PT.normalise(cfgT)
+    geo = PT.geometry(c)
+    J = geo.num_patterns
+    sd = [int(seed), 2, 700 + item["base"], S]
+    obj = PT.make_object(c, geo, np.random.default_rng(sd + [1]))
+    probe = PT.make_probe(c, geo)
+    gsim = geo
+    if kind == "pattern_order":
+        perm = pattern_permutation(item["order"], base["scan"])
+        gsim = PT.reorder_patterns(geo, perm)
+    data = PT.simulate(obj, probe, gsim, c)  # the sequence in slice order, the patterns in the order they are fed in
+    what = f"{item}"
+    stage = "build"
+    try:
+        if kind == "slice_thicknesses" and item["route"] != "construction":
+            pr = PT.build(dict(base, thicknesses=default_T), np.random.default_rng(sd + [0]), obj_init=obj, probe_init=probe, sim=data)
+            stage = item["route"]
+            w = PT.wrap_thicknesses(T, item["container"])
+            if item["route"] == "object_model_swap":
+                pr.set_object(obj, thicknesses=T, container=item["container"])
+            elif item["route"] == "ptychography_setter":
+                pr.ptycho.slice_thicknesses = w
+            else:
+                pr.ptycho.obj_model.slice_thicknesses = w
+        else:
+            if kind == "slice_thicknesses":
+                cfgT["thickness_container"] = item["container"]
+            pr = PT.build(cfgT, np.random.default_rng(sd + [0]), obj_init=obj, probe_init=probe, sim=data)
+        if kind == "pattern_order":
+            stage = "scan_positions_px setter"
+            pr.ptycho.dset.scan_positions_px = gsim.positions_px.astype(np.float32)
+        else:
+            stage = "follow-up"
+            pr.ptycho.compute_propagator_arrays()
+            pr.ptycho.preprocess(obj_padding_px=tuple(c["pad"]), plot_rotation=False, plot_com=False)
+        # the thicknesses the library reports must be the sequence, in order
+        stage = "judge"
+        if S > 1:
+            got = [float(v) for v in np.asarray(pr.ptycho.slice_thicknesses).ravel()]
+            if len(got) != len(T) or max(abs(g - t) for g, t in zip(got, T)) > 1e-3:
+                fail("reported_sequence", f"{what}: ptycho.slice_thicknesses reports {got}, installed {T}")
+        full, half = np.arange(J), np.arange(max(1, J // 2))
+        mean_I = float(data.sum() / J)
+        preds = None
+        L = {}
+        for lt in PT.LOSS_TYPES:
+            pr.set_loss_type(lt)
+            if preds is None:
+                if kind == "pattern_order":
+                    pl = pr.lib_placement(full)
+                    res = (pl["origin_mod"] + pl["frac"] - gsim.positions_px) % pl["obj_shape"]
+                    res = np.minimum(res, pl["obj_shape"] - res).max()
+                    if res > TOL["positions_px"]:
+                        fail("placement_follows_positions", f"{what}: patch origin + fractional shift is {res:.3g} px away from the positions that were set")
+                with torch.no_grad():
+                    preds = [(idx, pr.predict(idx)) for idx in (full, half, np.arange(len(half), J))]
+                for idx, pred in preds:
+                    pn = pred.detach().cpu().numpy().astype(float)
+                    d = float(np.abs(pn - data[idx]).max() / data.max()) if pn.shape == data[idx].shape and np.isfinite(pn).all() else float("inf")
+                    rec["pred_rel"] = max(rec.get("pred_rel", 0.0), d)
+                    if not d <= TOL["pred_rel"]:
+                        hint = ""
+                        if kind == "slice_thicknesses":  # does the prediction belong to a re-ordered sequence?
+                            for q in sorted(set(itertools.permutations(T))):
+                                if list(q) != T:
+                                    sq = PT.simulate(obj, probe, geo, PT.normalise(dict(base, thicknesses=list(q))))
+                                    if np.abs(pn - sq[idx]).max() / sq.max() <= TOL["pred_rel"]:
+                                        hint = f"; it equals the simulator for the thicknesses in the order {list(q)}"
+                                        break
+                        elif kind == "pattern_order":
+                            s0 = PT.simulate(obj, probe, geo, c)
+                            if np.abs(pn - s0[idx]).max() / s0.max() <= TOL["pred_rel"]:
+                                hint = "; it equals the simulator for the row-major raster order"
+                        fail("predicted_equals_simulated", f"{what}, thicknesses {T}: patterns {idx.tolist()}: max |predicted - simulated| / max = {d:.3g} > {TOL['pred_rel']:g}{hint}")
+            L[lt] = float(pr.loss(preds[0][1], full, lt))
+            z = L[lt] / PT.ref_loss(np.zeros_like(data), data, lt, J, mean_I)
+            rec.setdefault("zero", {})[lt] = z
+            if not z <= TOL["zero"][lt]:
+                fail("loss_zero_at_truth", f"{what}, thicknesses {T}: {lt} = {L[lt]:.4g} = {z:.3g} x the loss of an all-zero prediction")
+        if kind != "pattern_order":  # (a model swap re-rasterises the positions, so the perturbed state is judged on raster orders only)
+            stage = "judge:perturbed"
+            pr.set_object(PT.perturb_object(obj, c, geo, "noise", np.random.default_rng(sd + [3])), thicknesses=T)
+            for lt in PT.LOSS_TYPES:
+                pr.set_loss_type(lt)
+                with torch.no_grad():
+                    Lp = float(pr.loss(pr.predict(full), full, lt))
+                ratio = Lp / max(L[lt], 1e-30)
+                rec.setdefault("ratio", {})[lt] = ratio
+                if not ratio >= TOL["ratio"][lt[:2]]:
+                    fail("loss_larger_when_perturbed", f"{what}: {lt} at the noise-perturbed object = {Lp:.4g}, at the ground truth {L[lt]:.4g}: ratio {ratio:.3g} < {TOL['ratio'][lt[:2]]:g}")
+    except Exception as e:
+        tb = traceback.format_exc().strip().splitlines()
+        src = [ln.strip() for ln in tb if "/quantem/" in ln]
+        if not src:
+            raise
+        fail("pipeline_raises", f"{what}, {stage}: {type(e).__name__}: {str(e)[:200]} @ {src[-1][-160:]}")
+    return rec, fails
+
+
+def check_order(item, seed=0):
+    t = Tally()
+    rec, fails = run_order_case(item, seed=seed)
+    key = {k: v for k, v in item.items() if k != "index"}
+    t.case(key=key, nontrivial=True, outcome=(item["kind"], item["slices"], item.get("sequence"), item.get("order") if isinstance(item.get("order"), str) else None))
+    t.extra["order_cases_" + item["kind"]] += 1
+    if item["kind"] == "slice_thicknesses":
+        T = THICKNESS_SEQUENCES[item["slices"]][item["sequence"]]
+        t.extra["thickness_cases_distinct_values_not_ascending"] += int(len(set(T)) == len(T) and list(T) != sorted(T))
+        t.extra["thickness_cases_with_repeated_values"] += int(len(set(T)) < len(T))
+    for cls, msg in fails:
+        t.fail(cls, dict(key, index=item["index"], family="ordered_configuration"), f"base {json.dumps(ORDER_BASES[item['base']], sort_keys=True)} :: {msg}")
+    if item["index"] % 61 == 0:
+        t.sample({"case": key, "max_rel_pred_error": rec.get("pred_rel"), "loss_zero_ratio": rec.get("zero")})
+    return t
+
+
 # ----------------------------------------------------------------------------- driver
 def run(ctx):
     items, alph = lattice(ctx.tier)
@@ -1004,6 +1214,19 @@ def run(ctx):
                           "accepted_by_this_tree_not_judged": int(hm.extra["refused_ops_accepted_by_this_tree"]),
                           "follow_up": ["compute_propagator_arrays()", "preprocess(same arguments)", "reconstruct(num_iters=0, loss_type)"]},
     )
+    oitems = order_items(ctx.tier, start=len(hitems) + len(ritems))
+    om = ctx.pmap(check_order, oitems, chunk=8, label="ordered configuration", seed=ctx.seed)
+    ctx.coverage.update(
+        evaluations=int(ctx.coverage["evaluations"]) + int(om.n),
+        distinct_nontrivial=int(ctx.coverage["distinct_nontrivial"]) + len(om.nontrivial),
+        ordered_configuration={"thickness_sequences": {str(S): {k: list(v) for k, v in d.items()} for S, d in THICKNESS_SEQUENCES.items()},
+                               "routes": list(THICKNESS_ROUTES), "containers": list(PT.THICKNESS_CONTAINERS), "pattern_orders": list(PATTERN_ORDERS),
+                               "probe_params_key_orders": 6, "base_configurations": ORDER_BASES, "cases": len(oitems),
+                               "thickness_cases_distinct_values_not_ascending": int(om.extra["thickness_cases_distinct_values_not_ascending"]),
+                               "thickness_cases_with_repeated_values": int(om.extra["thickness_cases_with_repeated_values"])},
+    )
+    if om.extra["thickness_cases_distinct_values_not_ascending"] < 20 or om.extra["order_cases_pattern_order"] < 10:
+        raise Broken("vacuous ordered-configuration exploration")
     if hm.extra["refused_requests_issued_and_refused"] < len(REFUSED_OPS):
         raise Broken("vacuous refused-request exploration: hardly any request was refused")
     if hm.extra["histories_ending_in_the_data_configuration"] < 10 or len(hm.outcomes) < 8:
@@ -1020,6 +1243,16 @@ def run(ctx):
 
 
 def replay(ctx, case):
+    if case.get("family") == "ordered_configuration":
+        item = {k: v for k, v in case.items() if k != "family"}
+        rec, fails = run_order_case(item, seed=ctx.seed)
+        print("  base:", json.dumps(ORDER_BASES[case["base"]], sort_keys=True))
+        for k in ("item", "pred_rel", "zero", "ratio"):
+            if k in rec:
+                print(f"  {k}: {rec[k]}")
+        for cls, msg in fails:
+            ctx.fail(cls, case, msg)
+        return
     if case.get("family") == "reconfiguration_history":
         rec, fails = judge_history({"index": case["index"], "base": case["base"], "history": case["history"]}, seed=ctx.seed)
         print("  base:", json.dumps(HISTORY_BASES[case["base"]], sort_keys=True))
